@@ -133,6 +133,10 @@ def _uint_value(rng):
         return max(0, 2 ** k + rng.choice([-2, -1, 0, 1]))
     if c < 0.8:
         return rng.randrange(0, 5000)
+    if c < 0.815:
+        # very long codes (hundreds to thousands of data bits), at and around powers of two
+        k = rng.choice([255, 256, 511, 512, 1000, 1023, 1024, 1025, 1600, 2048, 4095, 4097])
+        return max(0, 2 ** k + rng.choice([-2, -1, 0, 1, rng.randrange(2 ** 64)]))
     return rng.randrange(0, 2 ** rng.choice([16, 32, 33, 64, 65, 128, 200]))
 
 
